@@ -6,6 +6,7 @@ sum over the grid of EACH vorticity component unchanged when vorticity vanishes 
 -/
 import SophtVerif.Props.C04Sum
 import SophtVerif.Props.C01_3D
+import SophtVerif.Props.C04
 
 set_option linter.unusedVariables false
 set_option linter.unusedSectionVars false
@@ -222,5 +223,139 @@ theorem C04_program_conserves_sum_3d (c : NS3Cfg K) (nz ny nx : ℕ) (hz : c.nz 
   exact ⟨(gsum3_congr nz ny nx _ _ h.1).trans sx, (gsum3_congr nz ny nx _ _ h.2.1).trans sy, (gsum3_congr nz ny nx _ _ h.2.2).trans sz⟩
 
 end Program
+
+/-! ### 3D passive transport of a scalar: ENO3 advection + diffusion -/
+
+section Passive
+open Sopht.Gen Sopht.Model
+
+theorem xb_eq_neg_xf (c : K) (f v : F3 K) (i j k : ℤ) : xbIncr3 c f v i j k = -xfIncr3 c f v i j (k - 1) := by
+  have h := C04_face_match_x_3d c zero3 f v i j (k - 1)
+  have e : k - 1 + 1 = k := by ring
+  rw [e] at h
+  simp only [xbIncr3, xfIncr3]
+  simp only [zero3, sub_zero] at h
+  linarith [h]
+
+theorem yb_eq_neg_yf (c : K) (f v : F3 K) (i j k : ℤ) : ybIncr3 c f v i j k = -yfIncr3 c f v i (j - 1) k := by
+  have h := C04_face_match_y_3d c zero3 f v i (j - 1) k
+  have e : j - 1 + 1 = j := by ring
+  rw [e] at h
+  simp only [ybIncr3, yfIncr3]
+  simp only [zero3, sub_zero] at h
+  linarith [h]
+
+theorem zb_eq_neg_zf (c : K) (f v : F3 K) (i j k : ℤ) : zbIncr3 c f v i j k = -zfIncr3 c f v (i - 1) j k := by
+  have h := C04_face_match_z_3d c zero3 f v (i - 1) j k
+  have e : i - 1 + 1 = i := by ring
+  rw [e] at h
+  simp only [zbIncr3, zfIncr3]
+  simp only [zero3, sub_zero] at h
+  linarith [h]
+
+theorem xf_zero (c : K) (f v : F3 K) (i j k : ℤ) (h : ∀ d : ℤ, -1 ≤ d → d ≤ 2 → f i j (k + d) = 0) : xfIncr3 c f v i j k = 0 := by
+  have a := h (-1) (by omega) (by omega); have b := h 0 (by omega) (by omega)
+  have c' := h 1 (by omega) (by omega); have d := h 2 (by omega) (by omega)
+  have e1 : k + -1 = k - 1 := by ring
+  have e0 : k + 0 = k := by ring
+  rw [e1] at a; rw [e0] at b
+  simp only [xfIncr3, zero3, advection_flux_x_front_conservative_eno3_stencil_3d, a, b, c', d]
+  split_ifs <;> ring
+
+theorem yf_zero (c : K) (f v : F3 K) (i j k : ℤ) (h : ∀ d : ℤ, -1 ≤ d → d ≤ 2 → f i (j + d) k = 0) : yfIncr3 c f v i j k = 0 := by
+  have a := h (-1) (by omega) (by omega); have b := h 0 (by omega) (by omega)
+  have c' := h 1 (by omega) (by omega); have d := h 2 (by omega) (by omega)
+  have e1 : j + -1 = j - 1 := by ring
+  have e0 : j + 0 = j := by ring
+  rw [e1] at a; rw [e0] at b
+  simp only [yfIncr3, zero3, advection_flux_y_front_conservative_eno3_stencil_3d, a, b, c', d]
+  split_ifs <;> ring
+
+theorem zf_zero (c : K) (f v : F3 K) (i j k : ℤ) (h : ∀ d : ℤ, -1 ≤ d → d ≤ 2 → f (i + d) j k = 0) : zfIncr3 c f v i j k = 0 := by
+  have a := h (-1) (by omega) (by omega); have b := h 0 (by omega) (by omega)
+  have c' := h 1 (by omega) (by omega); have d := h 2 (by omega) (by omega)
+  have e1 : i + -1 = i - 1 := by ring
+  have e0 : i + 0 = i := by ring
+  rw [e1] at a; rw [e0] at b
+  simp only [zfIncr3, zero3, advection_flux_z_front_conservative_eno3_stencil_3d, a, b, c', d]
+  split_ifs <;> ring
+
+/-- conservative form of the 3D ENO3 divergence: differences of face fluxes -/
+theorem enoDiv3_faces (c : K) (f vx vy vz : F3 K) (i j k : ℤ) :
+    enoDiv3 c f vx vy vz i j k = (xfIncr3 c f vx i j k - xfIncr3 c f vx i j (k - 1)) + (yfIncr3 c f vy i j k - yfIncr3 c f vy i (j - 1) k)
+      + (zfIncr3 c f vz i j k - zfIncr3 c f vz (i - 1) j k) := by
+  simp only [enoDiv3, xb_eq_neg_xf, yb_eq_neg_yf, zb_eq_neg_zf]; ring
+
+theorem advect3_eq (nz ny nx : ℕ) (c : K) (vx vy vz f : F3 K) (hm : Margin3 nz ny nx 4 f) (i j k : ℤ) :
+    advect3 nz ny nx c vx vy vz f i j k = f i j k + enoDiv3 (-c) f vx vy vz i j k := by
+  simp only [advect3]
+  split_ifs with hin
+  · rfl
+  · simp only [innerB] at hin
+    rw [enoDiv3_faces, xf_zero _ f vx i j k (fun d _ _ => hm _ _ _ (by omega)), xf_zero _ f vx i j (k - 1) (fun d _ _ => hm _ _ _ (by omega)),
+      yf_zero _ f vy i j k (fun d _ _ => hm _ _ _ (by omega)), yf_zero _ f vy i (j - 1) k (fun d _ _ => hm _ _ _ (by omega)),
+      zf_zero _ f vz i j k (fun d _ _ => hm _ _ _ (by omega)), zf_zero _ f vz (i - 1) j k (fun d _ _ => hm _ _ _ (by omega))]
+    ring
+
+/-- C04 (3D ENO3 advection, grid sum): for ANY velocity field the conservative update leaves the grid sum unchanged -/
+theorem C04_advect3_conserves_sum (nz ny nx : ℕ) (c : K) (vx vy vz f : F3 K) (hm : Margin3 nz ny nx 4 f) :
+    gsum3 nz ny nx (advect3 nz ny nx c vx vy vz f) = gsum3 nz ny nx f := by
+  have e : advect3 nz ny nx c vx vy vz f = fun i j k => f i j k + 1 * enoDiv3 (-c) f vx vy vz i j k := by
+    funext i j k; rw [advect3_eq nz ny nx c vx vy vz f hm]; ring
+  rw [e, gsum3_add]
+  have hX : gsum3 nz ny nx (fun i j k => xfIncr3 (-c) f vx i j k - xfIncr3 (-c) f vx i j (k - 1)) = 0 := by
+    unfold gsum3
+    apply Finset.sum_eq_zero; intro i _; apply Finset.sum_eq_zero; intro j _
+    rw [tele_x nx (fun k => xfIncr3 (-c) f vx i j k), xf_zero _ f vx _ _ _ (fun d _ _ => hm _ _ _ (by omega)),
+      xf_zero _ f vx _ _ _ (fun d _ _ => hm _ _ _ (by omega))]
+    ring
+  have hY : gsum3 nz ny nx (fun i j k => yfIncr3 (-c) f vy i j k - yfIncr3 (-c) f vy i (j - 1) k) = 0 := by
+    unfold gsum3
+    apply Finset.sum_eq_zero; intro i _
+    rw [Finset.sum_comm]; apply Finset.sum_eq_zero; intro k _
+    rw [tele_x ny (fun j => yfIncr3 (-c) f vy i j k), yf_zero _ f vy _ _ _ (fun d _ _ => hm _ _ _ (by omega)),
+      yf_zero _ f vy _ _ _ (fun d _ _ => hm _ _ _ (by omega))]
+    ring
+  have hZ : gsum3 nz ny nx (fun i j k => zfIncr3 (-c) f vz i j k - zfIncr3 (-c) f vz (i - 1) j k) = 0 := by
+    unfold gsum3
+    rw [Finset.sum_comm]; apply Finset.sum_eq_zero; intro j _
+    rw [Finset.sum_comm]; apply Finset.sum_eq_zero; intro k _
+    rw [tele_x nz (fun i => zfIncr3 (-c) f vz i j k), zf_zero _ f vz _ _ _ (fun d _ _ => hm _ _ _ (by omega)),
+      zf_zero _ f vz _ _ _ (fun d _ _ => hm _ _ _ (by omega))]
+    ring
+  have hsplit : gsum3 nz ny nx (enoDiv3 (-c) f vx vy vz) = 0 := by
+    have e2 : enoDiv3 (-c) f vx vy vz = fun i j k => (xfIncr3 (-c) f vx i j k - xfIncr3 (-c) f vx i j (k - 1))
+        + (yfIncr3 (-c) f vy i j k - yfIncr3 (-c) f vy i (j - 1) k) + (zfIncr3 (-c) f vz i j k - zfIncr3 (-c) f vz (i - 1) j k) := by
+      funext i j k; exact enoDiv3_faces _ _ _ _ _ i j k
+    have h3 : ∀ a b c' : F3 K, gsum3 nz ny nx (fun i j k => a i j k + b i j k + c' i j k) = gsum3 nz ny nx a + gsum3 nz ny nx b + gsum3 nz ny nx c' := by
+      intro a b c'; simp only [gsum3, Finset.sum_add_distrib]
+    rw [e2, h3 (fun i j k => xfIncr3 (-c) f vx i j k - xfIncr3 (-c) f vx i j (k - 1)) (fun i j k => yfIncr3 (-c) f vy i j k - yfIncr3 (-c) f vy i (j - 1) k)
+      (fun i j k => zfIncr3 (-c) f vz i j k - zfIncr3 (-c) f vz (i - 1) j k), hX, hY, hZ]
+    ring
+  rw [hsplit]; ring
+
+theorem advect3_margin (nz ny nx : ℕ) (c : K) (vx vy vz f : F3 K) (hm : Margin3 nz ny nx 4 f) :
+    Margin3 nz ny nx 2 (advect3 nz ny nx c vx vy vz f) := by
+  intro i j k hout
+  rw [advect3_eq nz ny nx c vx vy vz f hm, enoDiv3_faces, hm i j k (by omega),
+    xf_zero _ f vx i j k (fun d _ _ => hm _ _ _ (by omega)), xf_zero _ f vx i j (k - 1) (fun d _ _ => hm _ _ _ (by omega)),
+    yf_zero _ f vy i j k (fun d _ _ => hm _ _ _ (by omega)), yf_zero _ f vy i (j - 1) k (fun d _ _ => hm _ _ _ (by omega)),
+    zf_zero _ f vz i j k (fun d _ _ => hm _ _ _ (by omega)), zf_zero _ f vz (i - 1) j k (fun d _ _ => hm _ _ _ (by omega))]
+  ring
+
+variable {B : Type} [DecidableEq B]
+
+/-- C04 (grid sum, 3D passive-transport step PROGRAM of a scalar): unchanged for any velocity field, viscosity, dt when
+the field vanishes within 4 cells of the boundary -/
+theorem C04_passive_program_conserves_sum_3d (nz ny nx : ℕ) (hnz : 1 ≤ nz) (hny : 1 ≤ ny) (hnx : 1 ≤ nx) (f flux : B) (vel : Vec3 B)
+    (hne : flux ≠ f) (hvx : vel.x ≠ flux) (hvy : vel.y ≠ flux) (hvz : vel.z ≠ flux) (dt dx nu : K) (s : Store3 B K)
+    (hm : Margin3 nz ny nx 4 (s f)) :
+    gsum3 nz ny nx (exec3 (passiveStep3D nz ny nx f flux vel dt dx nu) s f) = gsum3 nz ny nx (s f) := by
+  have h := C01_passive_step_3d (nz : ℤ) (ny : ℤ) (nx : ℤ) (by exact_mod_cast hnz) (by exact_mod_cast hny) (by exact_mod_cast hnx)
+    f flux vel hne hvx hvy hvz dt dx nu s
+  rw [gsum3_congr nz ny nx _ _ h, diffuse1_sum nz ny nx _ _ (advect3_margin nz ny nx _ _ _ _ _ hm),
+    C04_advect3_conserves_sum nz ny nx _ _ _ _ _ hm]
+
+end Passive
 
 end Sopht.Props.C04
